@@ -39,7 +39,11 @@ impl<'a> BasicParser<'a> {
             }
             _ => {}
         }
-        parse.expect_statements()
+        let statements = parse.expect_statements()?;
+        match parse.peek() {
+            None => Ok(statements),
+            Some(_) => Err(error!(SyntaxError, ..&parse.col; "UNEXPECTED TOKEN")),
+        }
     }
 
     fn next(&mut self) -> Option<&'a Token> {
